@@ -115,6 +115,8 @@ def _sort_multi(ctx, eqn, iv):
     for i in range(n):
         for j in range(n - 1 - i):
             sw = jx.s_lt(cols[0][j + 1], cols[0][j])
+            if getattr(ctx, 'decide', None) is not None:
+                sw = ctx.decide(sw)
             for c in cols:
                 a, b = c[j], c[j + 1]
                 c[j], c[j + 1] = v_if(sw, b, a), v_if(sw, a, b)
@@ -163,11 +165,121 @@ def _cmp_with_inf(kind):
             fb = b if _isinf(b) else 0.0
             return {'lt': fa < fb, 'le': fa <= fb, 'gt': fa > fb, 'ge': fa >= fb, 'eq': False, 'ne': True}[kind]
         return base(a, b)
-    return lambda ctx, P, iv: jx.ew(f, *iv)
+
+    def run(ctx, P, iv):
+        dec = getattr(ctx, 'decide', None)
+        if dec is None:
+            return jx.ew(f, *iv)
+        return jx.ew(lambda a, b: dec(f(a, b)), *iv)
+    return run
 
 
 for _k in ('lt', 'le', 'gt', 'ge', 'eq', 'ne'):
     jx.ELEMENTWISE[_k] = _cmp_with_inf(_k)
+
+
+# ---- branch pruning under stated hypotheses (used by the O7 families only: ctx.decide is absent everywhere else)
+class Pruner:
+    """decide(c): a comparison c that is IMPLIED (or refuted) by the hypotheses of the case + the definitional side conditions + the
+    current branch guards is replaced by the constant, so that selects / conds / abs / max / sign fold while the jaxpr is interpreted.
+    Sound for every query that assumes the same hypotheses (they are added to each query of the case). Undecided within the
+    per-call time-out = kept symbolic."""
+
+    def __init__(self, ctx, hyps, timeout_ms=150):
+        self.ctx, self.hyps, self.n_side, self.keep, self.memo = ctx, list(hyps), 0, [], {}
+        self.s = z3.Solver()
+        self.s.set('timeout', timeout_ms)
+        self.s.add(*[sym.tob(x) for x in hyps])
+        self.stats = [0, 0]
+
+    def _implied(self, c):
+        self.s.push()
+        g = self.ctx.guard()
+        if g is not None:
+            self.s.add(g)
+        self.s.add(z3.Not(c))
+        r = self.s.check()
+        self.s.pop()
+        return r == z3.unsat
+
+    def __call__(self, c):
+        if not sym.isz(c):
+            return c
+        while self.n_side < len(self.ctx.side):
+            self.s.add(self.ctx.side[self.n_side])
+            self.n_side += 1
+        key = (c.get_id(), tuple(x.get_id() for x in self.ctx.guards))
+        if key not in self.memo:
+            self.keep.append(c)
+            self.stats[0] += 1
+            v = True if self._implied(c) else (False if self._implied(z3.Not(c)) else None)
+            self.stats[1] += v is not None
+            self.memo[key] = v
+        v = self.memo[key]
+        return c if v is None else v
+
+
+def _pruned(name, fn_sym):
+    """abs / sign / max / min with the sign test decided by ctx.decide when present"""
+    orig = jx.ELEMENTWISE[name]
+
+    def run(ctx, P, iv):
+        dec = getattr(ctx, 'decide', None)
+        if dec is None:
+            return orig(ctx, P, iv)
+        return jx.ew(lambda *a: fn_sym(dec, *a), *iv)
+    return run
+
+
+def _p_abs(dec, a):
+    if sym.num(a):
+        return abs(a)
+    c = dec(a >= 0)
+    return (a if c else -a) if isinstance(c, bool) else z3.If(c, a, -a)
+
+
+def _p_sign(dec, a):
+    if sym.num(a):
+        return float(onp.sign(a))
+    pos, neg = dec(a > 0), dec(a < 0)
+    if pos is True:
+        return 1.0
+    if neg is True:
+        return -1.0
+    if pos is False and neg is False:
+        return 0.0
+    return z3.If(sym.tob(pos), z3.RealVal(1), z3.If(sym.tob(neg), z3.RealVal(-1), z3.RealVal(0)))
+
+
+def _p_max(dec, a, b):
+    if sym.num(a) and sym.num(b):
+        return max(a, b)
+    c = dec(sym.toz(a) >= sym.toz(b))
+    return (a if c else b) if isinstance(c, bool) else z3.If(c, sym.toz(a), sym.toz(b))
+
+
+def _p_min(dec, a, b):
+    if sym.num(a) and sym.num(b):
+        return min(a, b)
+    c = dec(sym.toz(a) <= sym.toz(b))
+    return (a if c else b) if isinstance(c, bool) else z3.If(c, sym.toz(a), sym.toz(b))
+
+
+jx.ELEMENTWISE['abs'] = _pruned('abs', _p_abs)
+jx.ELEMENTWISE['sign'] = _pruned('sign', _p_sign)
+jx.ELEMENTWISE['max'] = _pruned('max', _p_max)
+jx.ELEMENTWISE['min'] = _pruned('min', _p_min)
+_orig_reduce_max = jx.OTHER['reduce_max']
+
+
+def _reduce_max_pruned(ctx, eqn, iv):
+    dec = getattr(ctx, 'decide', None)
+    if dec is None:
+        return _orig_reduce_max(ctx, eqn, iv)
+    return jx._reduce(lambda a, b: _p_max(dec, a, b), None)(ctx, eqn, iv)
+
+
+jx.OTHER['reduce_max'] = _reduce_max_pruned
 
 
 _orig_gather = jx.OTHER['gather']
@@ -810,3 +922,173 @@ def o5d(h):
             asm_c, atom_c = build(f('q'), f('s'), f('d'), f('h'), float(vals['t']), [[float(Vc[a, b]) for b in range(3)] for a in range(3)])[name]
             return all(bool(x) for x in asm_c), atom_c, 'harness algebra (no code involved)'
         h.prove(name, asm, atom, inputs=inputs, concrete=concrete, cap=200, order=('core',) if name.startswith('sylvester') else ('nlsat', 'core'))
+
+
+# ------------------------------------------------------------------------------------------------ O7: the real eigen-solver on families
+EIG_TOL = 1e-9
+E_PLANE = {'xy': onp.array([[0., 1, 0], [1, 0, 0], [0, 0, 0]]), 'xz': onp.array([[0., 0, 1], [0, 0, 0], [1, 0, 0]]),
+           'yz': onp.array([[0., 0, 0], [0, 0, 1], [0, 1, 0]])}
+CUT_NOTE = ('cut lemma (DESIGN.md section 4) inside eigen_sym33_unit where stated: the argument cmaxInv*tensor that the real code passes to '
+            'eigen_sym33_non_unit is named; the lemma `it equals the normalised family member N` is proved by the solver for all parameters '
+            'of the case; the REAL eigen_sym33_non_unit is then interpreted on N (its definition in terms of the parameters dropped). '
+            'Replays run the unmodified eigen_sym33_unit.')
+
+
+def _eig_case(h, label, npar, family, N=None, sampler=None, which='unit', hyp=None):
+    """trace the REAL eigen_sym33_unit on A = family(p). N(p) (optional): the normalised member; while TRACING the inner call of
+    eigen_sym33_non_unit is made on N(p) and its actual argument is returned as an extra output for the lemma."""
+    T = TM()
+
+    def fn(p):
+        A = family(p)
+        seen = []
+        real = T.eigen_sym33_non_unit
+        tracing = isinstance(p, jax.core.Tracer)
+
+        def wrapper(scaled):
+            seen.append(scaled)
+            res = real(N(p) if (N is not None and tracing) else scaled)
+            seen.append(res[0])
+            return res
+        T.eigen_sym33_non_unit = wrapper
+        try:
+            lam, V = (T.eigen_sym33_unit if which == 'unit' else wrapper)(A)
+        finally:
+            T.eigen_sym33_non_unit = real
+        return lam, V, A, seen[0], seen[1]
+    ex = sampler(onp.random.default_rng(1))[0]
+    ctx = jx.Ctx()
+    if hyp is not None:
+        ctx.hyps = [sym.tob(x) for x in hyp(list(sym.sym_array('p', (npar,))))]
+        ctx.decide = Pruner(ctx, ctx.hyps)
+    return Case(h, fn, dict(p=ex), sampler=sampler, label=label, jit=False, ctx=ctx)
+
+
+def _inf_norm(A):
+    sc = 0.0
+    for i in range(3):
+        sc = v_max(sc, v_sum([v_abs(A[i][j]) for j in range(3)]))
+    return sc
+
+
+def _eig_atoms(i, o, Nspec=None, per_entry=False, normalised=False):
+    lam, V, A, scaled = list(o[0]), M(o[1]), M(o[2]), M(o[3])
+    sc = _inf_norm(A)
+    R = mm(mm(V, mdiag(lam)), mT(V))
+    G = mm(mT(V), V)
+    ats = []
+    if Nspec is not None:
+        ats.append(Eq(fl(scaled), fl(Nspec(list(i['p']))), name='normalised_member_lemma'))
+    tol_r = v_mul(EIG_TOL, sc)
+    if per_entry:
+        # R = V diag(lam) V^T and G = V^T V are symmetric by construction: upper triangles, one query per entry
+        ut = [(a, b) for a in range(3) for b in range(a, 3)]
+        if normalised and Nspec is not None:
+            # reconstruction stated on the normalised tensor (one parameter): with the two lemmas `cmaxInv*A = N` and `lam = |A|_inf * lam_inner`
+            # it is the end-to-end statement divided by |A|_inf:  |V diag(lam) V^T - A| = |A|_inf |V diag(lam_inner) V^T - N|
+            lin = list(o[4])
+            Nn = Nspec(list(i['p']))
+            Rn = mm(mm(V, mdiag(lin)), mT(V))
+            ats.append(Eq(lam, [v_mul(sc, x) for x in lin], name='eigenvalues_are_norm_times_inner_lemma', scale=sc))
+            ats.append(Eq(fl(A), fl(mscale(sc, Nn)), name='A_is_norm_times_normalised_member_lemma', scale=sc))
+            ats += [Le(v_abs(v_sub(Rn[a][b], Nn[a][b])), EIG_TOL, name='reconstructs_normalised[%d%d]' % (a, b), scale=1.0) for a, b in ut]
+        else:
+            ats += [Le(v_abs(v_sub(R[a][b], A[a][b])), tol_r, name='reconstructs[%d%d]' % (a, b), scale=sc) for a, b in ut]
+        ats += [Le(v_abs(v_sub(G[a][b], 1.0 if a == b else 0.0)), EIG_TOL, name='orthonormal[%d%d]' % (a, b), scale=1.0) for a, b in ut]
+    else:
+        ats += [Le([v_abs(v_sub(R[a][b], A[a][b])) for a in range(3) for b in range(3)], tol_r, name='reconstructs', scale=sc),
+                Le([v_abs(v_sub(G[a][b], 1.0 if a == b else 0.0)) for a in range(3) for b in range(3)], EIG_TOL, name='orthonormal', scale=1.0)]
+    ats.append(Holds(v_and(v_le(lam[0], lam[1]), v_le(lam[1], lam[2])), name='ascending'))
+    return ats
+
+
+def _o7_meta(h):
+    T = TM()
+    from optimism import Math
+    h.encoded(T.eigen_sym33_unit, T.eigen_sym33_non_unit, T.cos_of_acos_divided_by_3, Math.safe_sqrt)
+    h.outside('eigen_sym33_unit on general symmetric tensors (six free entries): only the listed low-dimensional families are decided',
+              'rounding error of the evaluation (all values are mathematical reals; concrete sub-computations are folded in binary64 by the real primitives)')
+    h.assume_note(CUT_NOTE, 'no non-zero-denominator assumption is made: a division by zero in the real code is an uninterpreted value for the '
+                  'solver, so a proof cannot rely on it')
+
+
+@obligation(P, 'O7.eigen_sym33_on_families', cap=300)
+def o7(h):
+    """the REAL eigen_sym33_unit on symbolic low-dimensional families: V diag(lam) V^T reconstructs A within 1e-9 |A|_inf, V^T V = I within
+    1e-9, eigenvalues ascending. Families: s*I (all real s); in-plane pure shear g*E in the xy, xz, yz planes (all real g != 0)"""
+    _o7_meta(h)
+    h.bounds('isotropic: A = s*I, every real s (both signs and 0), monolithic (no cut)',
+             'pure shear: A = g*(e_i e_j^T + e_j e_i^T) for the planes xy, xz, yz, every real g > 0 and g < 0 (g = 0 is s = 0 above); '
+             'with the cut lemma cmaxInv*A == +-E', 'tolerance 1e-9 relative to |A|_inf (reconstruction), 1e-9 absolute (orthonormality)')
+    c = _eig_case(h, 'isotropic', 1, lambda p: p[0] * jnp.eye(3), sampler=lambda rng: [rng.normal(size=1)])
+    c.prove('isotropic', lambda i, o: ([], _eig_atoms(i, o)), order=('nlsat', 'core'), denoms=False, cap=60)
+    for plane, E in E_PLANE.items():
+        for sgn, sg in (('g>0', 1.0), ('g<0', -1.0)):
+            c = _eig_case(h, 'pure_shear_%s[%s]' % (plane, sgn), 1, lambda p, E=E: p[0] * jnp.asarray(E), N=lambda p, E=E, sg=sg: jnp.asarray(sg * E),
+                          sampler=lambda rng, sg=sg: [onp.array([sg * rng.uniform(0.1, 3.0)])])
+
+            def spec(i, o, E=E, sg=sg):
+                g = list(i['p'])[0]
+                return [v_lt(0.0, v_mul(sg, g))], _eig_atoms(i, o, Nspec=lambda p: [[float(sg * E[a, b]) for b in range(3)] for a in range(3)])
+            c.prove('pure_shear_%s[%s]' % (plane, sgn), spec, order=('nlsat', 'core'), denoms=False, cap=60)
+
+
+def _z3_consts(e, acc, seen):
+    if e.get_id() in seen:
+        return
+    seen.add(e.get_id())
+    if z3.is_const(e) and e.decl().kind() == z3.Z3_OP_UNINTERPRETED:
+        acc.add(e.get_id())
+    for ch in e.children():
+        _z3_consts(ch, acc, seen)
+
+
+def relevant_side(ctx, formulas):
+    """cone of influence: a sqrt definition `a >= 0 -> (s >= 0 and s*s = a)` of a fresh s is kept only if s occurs in the query
+    (transitively). Dropping the others is sound (fewer assumptions) and complete (each defines its own fresh variable and is
+    always satisfiable), and keeps huge irrelevant radicands out of the solver. Other side conditions are always kept."""
+    defs, other = [], []
+    for c in ctx.all_side():
+        s = None
+        try:
+            if z3.is_implies(c) and z3.is_and(c.arg(1)):
+                cand = c.arg(1).arg(0).arg(0)
+                if z3.is_const(cand) and str(cand).startswith('sqrt!'):
+                    s = cand
+        except Exception:
+            s = None
+        (defs if s is not None else other).append((s, c))
+    acc, seen = set(), set()
+    for f in list(formulas) + [c for _, c in other]:
+        if sym.isz(f):
+            _z3_consts(f, acc, seen)
+    keep, changed = [], True
+    pending = list(defs)
+    while changed:
+        changed = False
+        for item in list(pending):
+            s, c = item
+            if s.get_id() in acc:
+                pending.remove(item)
+                keep.append(c)
+                _z3_consts(c, acc, seen)
+                changed = True
+    return [c for _, c in other] + keep
+
+
+def prove_coi(case, name, spec, cap=60, order=('core', 'nlsat')):
+    """Case.prove with per-atom cone-of-influence filtering of the side conditions and the case's pruning hypotheses added"""
+    assumes, atoms = spec(case.inp, case.out)
+    hyps = list(getattr(case.ctx, 'hyps', []))
+    recs = []
+    for k, atom in enumerate(atoms):
+        def concrete(vals, k=k):
+            ci = case.conc_inputs(vals)
+            co = case.real(vals)
+            ca, catoms = spec(ci, co)
+            ok = all(bool(x) for x in sym.flat(list(ca)))
+            return ok, catoms[k], dict(outputs=[onp.asarray(l).tolist() for l in jax.tree_util.tree_leaves(co)][:6])
+        goal_terms = [sym.tob(a) for a in assumes if a is not None and not isinstance(a, bool)] + hyps + [atom.neg(0)]
+        base = list(assumes) + hyps + relevant_side(case.ctx, goal_terms)
+        recs.append(case.h.prove('%s.%s' % (name, atom.name), base, atom, inputs=case.inp, concrete=concrete, cap=cap, order=order))
+    return recs
